@@ -329,9 +329,9 @@ impl Property for C05 {
             level: "exploration",
             rule: "seeded command histories over every mutating ConfigState verb (swarm: alphabets, verb mix, optional-field density, record sizes, certificate density); 1-3 snapshots per history pushed through all four save/replay paths, encoded under one hash seed and replayed under another; a run is non-trivial when a snapshot with >=3 objects went through all paths; distinct = distinct (acceptance pattern, snapshot content, per-path outcome) hashes",
             assumptions: vec!["release semantics (debug assertions off)", "`request_counts` is a census, not configuration", "an empty bucket equals an absent one; order inside a bucket is not configuration"],
-            real: vec!["ConfigState::{dispatch, produce_initial_state, write_requests_to_file, write_initial_state_to_file}", "parser::parse_several_requests + buffer::fixed::Buffer", "request::read_initial_state_from_file (prost)", "sozu::command::upgrade::UpgradeData serde round trip", "real files on disk (fsync) in a tenth of the runs, anonymous in-memory files (memfd) otherwise"],
+            real: vec!["cluster tier: CommandHub::run + fork_main_into_worker (parent branch) + begin_worker_process + Server::run, UpgradeWorker orchestration", "hub tier: CommandHub::run, save_state / load_state / generate_upgrade_data / from_upgrade_data", "ConfigState::{dispatch, produce_initial_state, write_requests_to_file, write_initial_state_to_file}", "parser::parse_several_requests + buffer::fixed::Buffer", "request::read_initial_state_from_file (prost)", "sozu::command::upgrade::UpgradeData serde round trip", "real files on disk (fsync) in a tenth of the runs, anonymous in-memory files (memfd) otherwise"],
             stub: vec!["bin's private load_state loop (copied around the real parser/buffer)", "CommandHub::from_upgrade_data (takes `.state` verbatim; needs fds)", "clock", "entropy"],
-            not_covered: vec!["bootstrap through a really booted worker (clustersim)", "crash consistency of the state file (not claimed)"],
+            not_covered: vec!["crash consistency of the state file (not claimed)"],
         }
     }
 }
